@@ -100,6 +100,8 @@ fn run_worker(page_pool: PagePool, command_rx: Receiver<IoPacket>) {
                 // system call would have returned in case of success,
                 // and in case of error completion_event.result() will contain -errno
                 let io_uring_res = completion_event.result();
+                #[cfg(feature = "verif")]
+                let io_uring_res = crate::verif::io::on_cqe(&command, io_uring_res);
                 let syscall_result = if io_uring_res >= 0 { io_uring_res } else { -1 };
 
                 let result = match command.kind.get_result(syscall_result as isize) {
